@@ -769,7 +769,12 @@ package proto
 //@   modifies b.Buf
 //@   ensures appendsOnly(b)
 //@   ensures len(b.Buf) == old(len(b.Buf)) + 8 + ite(implements(c.index, StateEncoder), c.index.statelen, 0) {version-word-then-the-index-state}
-//@   ensures unle64(b.Buf[old(len(b.Buf))], b.Buf[old(len(b.Buf)) + 1], b.Buf[old(len(b.Buf)) + 2], b.Buf[old(len(b.Buf)) + 3], b.Buf[old(len(b.Buf)) + 4], b.Buf[old(len(b.Buf)) + 5], b.Buf[old(len(b.Buf)) + 6], b.Buf[old(len(b.Buf)) + 7]) == 1 {key-serialization-version-is-1}
+//@   case with-index-state:
+//@     requires implements(c.index, StateEncoder)
+//@     ensures unle64(b.Buf[old(len(b.Buf))], b.Buf[old(len(b.Buf)) + 1], b.Buf[old(len(b.Buf)) + 2], b.Buf[old(len(b.Buf)) + 3], b.Buf[old(len(b.Buf)) + 4], b.Buf[old(len(b.Buf)) + 5], b.Buf[old(len(b.Buf)) + 6], b.Buf[old(len(b.Buf)) + 7]) == 1 {key-serialization-version-is-1}
+//@   case without-index-state:
+//@     requires !implements(c.index, StateEncoder)
+//@     ensures unle64(b.Buf[old(len(b.Buf))], b.Buf[old(len(b.Buf)) + 1], b.Buf[old(len(b.Buf)) + 2], b.Buf[old(len(b.Buf)) + 3], b.Buf[old(len(b.Buf)) + 4], b.Buf[old(len(b.Buf)) + 5], b.Buf[old(len(b.Buf)) + 6], b.Buf[old(len(b.Buf)) + 7]) == 1 {key-serialization-version-is-1}
 
 //@ contract (c ColNamed) EncodeState(b) props(C01)
 //@   requires b != nil
